@@ -94,3 +94,16 @@ Definition dup_pfs := ptrify_fields
   (FCons (S "Port") [] false (tint 0 "int") FNil)).
 Example dup_panics : class_of (env_value [] dup_pfs []) = CPanic.
 Proof. vm_compute. reflexivity. Qed.
+
+(* a tag made of separators only names no variable: an error (the pinned code
+   panicked with "empty dialsenv tag"); a separator-only tag on an inner level
+   or next to real words is harmless *)
+Definition sep_pfs := ptrify_fields (FCons (S "X") [(S "dials", S "_")] false (tint 0 "int") FNil).
+Example sep_only_tag_is_error : env_value [] sep_pfs [(S "X", S "1")] = Err 5.
+Proof. vm_compute. reflexivity. Qed.
+Example sep_edges_are_harmless :
+  omap (map snd) (env_plan (S "P")
+     (ptrify_fields (FCons (S "A") [(S "dials", S "--")] false
+                       (TStruct (FCons (S "B") [(S "dials", S "-x_")] false (tint 0 "int") FNil) []) FNil))) =
+  Ok [S "P_X"].
+Proof. vm_compute. reflexivity. Qed.
